@@ -128,16 +128,22 @@ package server
 //@ func extractTagTokensFromComment
 //@   props C06 C17
 //@   requires tok.Pos.Line >= 1 && tok.Pos.Column >= 1 && tok.Pos.Line <= 4294967295 && tok.Pos.Column <= 4294967295 && len(tok.Value) < 4294967295
+//@   requires [C17:fits] tok.Pos.Column + len(tok.Value) <= 4294967295
 //@   ensures [legend] forall i int :: 0 <= i && i < len(result) ==> result[i].tokenType <= 12
 //@   ensures [fresh] fresh(result) || len(result) == 0
+//@   ensures [C17:tag_tokens_in_order] forall i int, j int :: {result[i]; result[j]} 0 <= i && i < j && j < len(result) ==> result[i].col + result[i].length <= result[j].col
+//@   ensures [C17:tag_tokens_inside_comment] forall i int :: {result[i]} 0 <= i && i < len(result) ==> result[i].line == tok.Pos.Line - 1 && tok.Pos.Column <= result[i].col && result[i].col + result[i].length <= tok.Pos.Column + len(tok.Value)
 //@   loop 1 invariant 0 - 1 <= rangeindex && 0 <= searchStart && searchStart <= len(commentText) && commentText == tok.Value && (fresh(tokens) || len(tokens) == 0)
 //@   loop 1 invariant forall i int :: 0 <= i && i < len(tokens) ==> tokens[i].tokenType <= 12
+//@   loop 1 invariant baseCol == tok.Pos.Column - 1 && baseLine == tok.Pos.Line - 1
+//@   loop 1 invariant forall i int :: {tokens[i]} 0 <= i && i < len(tokens) ==> tokens[i].line == baseLine && baseCol + 1 <= tokens[i].col && tokens[i].col + tokens[i].length <= baseCol + 1 + searchStart
+//@   loop 1 invariant forall i int, j int :: {tokens[i]; tokens[j]} 0 <= i && i < j && j < len(tokens) ==> tokens[i].col + tokens[i].length <= tokens[j].col
 //@   loop 1 decreases len(parts) - rangeindex
 
 //@ func tokenizeForSemantics
 //@   props C17 C06
 //@   functional semtok
-//@   requires len(content) < 4294967294
+//@   requires len(content) < 2147483646
 //@   ensures [legend] forall i int :: 0 <= i && i < len(result) ==> result[i].tokenType <= 12
 //@   loop 1 invariant lexer != nil && fresh(lexer) && LexInv(lexer) && Pos16(lexer) && lexer.input == content
 //@   loop 1 invariant forall i int :: 0 <= i && i < len(tokens) ==> tokens[i].tokenType <= 12
@@ -249,7 +255,8 @@ package server
 
 //@ specdef hasDoc(s *Server, u protocol.DocumentURI) bool := smhas(s.documents, u) && typeis(smget(s.documents, u), string)
 //@ specdef docOf(s *Server, u protocol.DocumentURI) string := as(smget(s.documents, u), string)
-//@ pred DocSmall(s, u) := hasDoc(s, u) ==> len(docOf(s, u)) < 4294967294
+// (2 GiB: a token's column plus its length must fit in 32 bits, and column <= length of the text + 1)
+//@ pred DocSmall(s, u) := hasDoc(s, u) ==> len(docOf(s, u)) < 2147483646
 //@ pred Live(s, u) := hasDoc(s, u) && docOf(s, u) != ""
 
 // A full request answers with the encoding of the tokens of the CURRENT text and records exactly that answer under a new result id.
